@@ -83,14 +83,35 @@ class M_Cipher(object):
 
 
 class M_CipherCtx(object):
+    """CBC context of the `cryptography` package: update() returns the output for every complete block at once (here: for the whole
+    buffer when it is block-aligned; a partial block stays buffered), finalize() returns what is left (nothing) or raises on a partial block"""
+
     def __init__(self, c, enc):
         self.c, self.enc, self.buf = c, enc, SymSeq([], "bytes")
+        self.emitted = False
 
     def update(self, data):
+        if self.emitted:
+            raise Unsupported("a second update() on a cipher context that already produced output (CBC chaining across calls is not modelled)")
         self.buf = self.buf + rope(data)
-        return SymSeq([], "bytes")
+        n = self.buf.length()
+        if (isinstance(n, int) and n == 0) or (not isinstance(n, int) and bool(n == 0)):
+            return SymSeq([], "bytes")
+        aligned = (n % 16 == 0) if isinstance(n, int) else bool(n % 16 == 0)
+        if not aligned:
+            return SymSeq([], "bytes")
+        out = self._output()
+        self.emitted = True
+        self.buf = SymSeq([], "bytes")
+        return out
 
     def finalize(self):
+        n = self.buf.length()
+        if (isinstance(n, int) and n == 0) or (not isinstance(n, int) and bool(n == 0)):
+            return SymSeq([], "bytes")
+        return self._output()
+
+    def _output(self):
         if self.c.mode[0] != "cbc":
             raise Unsupported("cipher mode %s" % self.c.mode[0])
         iv = self.c.mode[1]
